@@ -312,7 +312,6 @@ func cornerValues() []*lat.VSpec {
 		lat.VH(lat.VT(lat.A("String")), lat.VT(lat.A("Any"))),
 		{K: "Regexp", S: "a"}, {K: "Regexp", S: "a/b"}, {K: "Regexp", S: ""}, lat.VA(&lat.VSpec{K: "Regexp", S: "\\d+"}),
 		lat.VI(lat.Min), lat.VI(lat.Max), lat.VA(lat.VI(lat.Min), lat.VI(-1)), lat.VH(lat.VI(lat.Min), lat.VI(lat.Max)),
-		{K: "Binary", S: "\x00\x01\xff"}, {K: "Timespan"},
 	}
 	return vs
 }
